@@ -112,6 +112,10 @@ def check(run: Run) -> None:
                 q = ptr + 2
                 if type(q) is not type(ptr) or int.__int__(q) != addr + 2 or q._stream is not ptr._stream:
                     probs.append({"what": "pointer + 2", "observed": f"{type(q).__name__} {int.__int__(q)}", "expected": f"{type(ptr).__name__} {addr + 2} on the same stream"})
+                # addition commutes in C: 2 + pointer is the same pointer arithmetic
+                r = 2 + ptr
+                if type(r) is not type(ptr) or int.__int__(r) != addr + 2 or getattr(r, "_stream", None) is not ptr._stream:
+                    probs.append({"what": "reflected: 2 + pointer", "observed": f"{type(r).__name__} {int(r)}", "expected": f"{type(ptr).__name__} {addr + 2} on the same stream"})
                 # model comparison of the dereference
                 exp = canon.cerr(d1) if isinstance(d1, BaseException) else ("(Ok None)" if d1 is None else f"(Ok (Some {structs.value_term(d1, tt if tt.__name__ != 'char' else cs.resolve('char')[None])}))")
                 if endian not in "@=":
